@@ -2,6 +2,7 @@ import SspModel.Lemmas.Pk
 import SspModel.Model.Esc
 import SspModel.Props.C12
 import SspModel.Lemmas.Conserve
+import SspModel.Lemmas.Bridge.Esc
 import Mathlib.Algebra.BigOperators.Group.List.Basic
 import Mathlib.Analysis.SpecialFunctions.Sqrt
 /-!
@@ -277,6 +278,34 @@ theorem zero_rate (normM : Bool) (t tcc md : ℝ) (stars : List (StarBin ℝ)) (
     · intro r hr; simp only [List.mem_map] at hr; obtain ⟨b, _, rfl⟩ := hr; simp
 
 structure Statement : Prop where
+  /-- the model's entries are the expressions of `_derivs_esc` in the source now (pre- and post-collapse, both normalisations) -/
+  source_pre : ∀ (normM : Bool) (rate : ℝ) (stars : List (StarBin ℝ)) (rems : List (ℝ × ℝ)),
+    escPre normM rate stars rems =
+      (let D := if normM then sumL (stars.map StarBin.mass) + sumL (rems.map (·.2))
+                else sumL (stars.map (·.n)) + sumL (rems.map (·.1))
+       (stars.map (fun b => if normM then Generated.esc_preM_dNs rate b.n D else Generated.esc_preN_dNs rate b.n D),
+        stars.map (fun _ => (0 : ℝ)),
+        rems.map (fun r =>
+          if Scalar.lt 0 r.1 then
+            (if normM then (Generated.esc_preM_dNr rate r.1 r.2 D, Generated.esc_preM_dMr rate r.1 r.2 D)
+             else (Generated.esc_preN_dNr rate r.1 r.2 D, Generated.esc_preN_dMr rate r.1 r.2 D))
+          else (0, 0))))
+  source_Is : ∀ (md : ℝ) (b : StarBin ℝ), b.Is md = match b.moments with
+      | some (p1, p15, p2, _) => if Generated.esc_depl p1 p2 md then Generated.esc_Is b.n md p1 p15 else 0
+      | none => 0
+  source_Js : ∀ (md : ℝ) (b : StarBin ℝ), (b.Js md = match b.moments with
+      | some (p1, _, p2, p25) => if Generated.esc_depl p1 p2 md then Generated.esc_Js_a b.n md p1 p2 p25 else 0
+      | none => 0) ∧ (b.Js md = match b.moments with
+      | some (p1, _, p2, p25) => if Generated.esc_depl p1 p2 md then Generated.esc_Js_b b.n md p1 p2 p25 else 0
+      | none => 0)
+  source_rem : ∀ (md : ℝ) (r : ℝ × ℝ), remI md r = (if Scalar.lt 0 r.1 then Generated.esc_Ir r.1 r.2 md else 0) ∧
+    remJ md r = (if Scalar.lt 0 r.1 then Generated.esc_Jr r.1 r.2 md else 0)
+  source_B : ∀ (normM : Bool) (rate md : ℝ) (stars : List (StarBin ℝ)) (rems : List (ℝ × ℝ)), escB normM rate md stars rems =
+      if normM then Generated.esc_B_M rate (sumL (stars.map (StarBin.Js md))) (sumL (rems.map (remJ md)))
+      else Generated.esc_B_N rate (sumL (stars.map (StarBin.Is md))) (sumL (rems.map (remI md)))
+  source_post : ∀ (B md : ℝ) (b : StarBin ℝ) (r : ℝ × ℝ),
+    B * b.Is md = Generated.esc_post_dNs B (b.Is md) ∧ B * b.dalphaUnit md = Generated.esc_post_dalpha B b.lo b.hi md ∧
+    B * remI md r = Generated.esc_post_dNr B (remI md r) (remJ md r) ∧ B * remJ md r = Generated.esc_post_dMr B (remI md r) (remJ md r)
   pre_N : ∀ (rate : ℝ) (stars : List (StarBin ℝ)) (rems : List (ℝ × ℝ)), RemNonNeg rems → preD false stars rems ≠ 0 →
     (escPre false rate stars rems).1.sum + ((escPre false rate stars rems).2.2.map (·.1)).sum = rate
   pre_M : ∀ (rate : ℝ) (stars : List (StarBin ℝ)) (rems : List (ℝ × ℝ)), (∀ r ∈ rems, 0 < r.1 ∨ r.2 = 0) →
@@ -314,6 +343,12 @@ structure Statement : Prop where
     norm 'M' after core collapse the mass change *implied by the evolving slopes* equals the rate only to second order
     in the bins' log-width (the slope rule is a secant). The time-integrated clause is `integrated`, for exact solutions. -/
 theorem C03_partial : Statement where
+  source_pre := Bridge.gen_escPre
+  source_Is := Bridge.gen_Is
+  source_Js := fun md b => ⟨Bridge.gen_Js_a md b, Bridge.gen_Js_b md b⟩
+  source_rem := fun md r => ⟨Bridge.gen_remI md r, Bridge.gen_remJ md r⟩
+  source_B := Bridge.gen_escB
+  source_post := Bridge.gen_post_entries
   pre_N := pre_N_sum
   pre_M := pre_M_sum
   pre_uniform := pre_uniform
